@@ -78,6 +78,12 @@ def handle (op : String) (fs : List (String × String)) : String :=
       | .ok e => s!"ok:{e.fmt};{toHex e.loca};{toHex e.glyf}"
       | .err e => "err:" ++ e
       | .panic _ => "panic"
+  else if op == "glyf.roundtrip" then
+    -- direct predicate: on a well-formed list, Decode (Encode gs) must give gs back
+    match (getField fs "gs").bind parseGlyphs with
+    | none => "bad-case"
+    | some gs =>
+      if wfGlyphs gs then "ok:" ++ showGlyphs gs else "not-wf"
   else if op == "glyf.decode" then
     match (getField fs "fmt").bind String.toInt?, (getField fs "loca").bind fromHex,
         (getField fs "glyf").bind fromHex with
@@ -85,6 +91,16 @@ def handle (op : String) (fs : List (String × String)) : String :=
       match decode f l g with
       | .ok gs => "ok:" ++ showGlyphs gs
       | .err e => "err:" ++ e
+      | .panic _ => "panic"
+    | _, _, _ => "bad-case"
+  else if op == "glyf.fixed" then
+    -- direct predicate (C11_bytes_fixed): whatever Decode accepts re-encodes to a fixed point
+    match (getField fs "fmt").bind String.toInt?, (getField fs "loca").bind fromHex,
+        (getField fs "glyf").bind fromHex with
+    | some f, some l, some g =>
+      match decode f l g with
+      | .ok _ => "fixed"
+      | .err _ => "rejected"
       | .panic _ => "panic"
     | _, _, _ => "bad-case"
   else if op == "glyf.simple" then
